@@ -5,6 +5,7 @@ import (
 	"encoding/binary"
 	"encoding/hex"
 	"fmt"
+	"strings"
 
 	"github.com/hujm2023/go-sms-protocol/packet"
 
@@ -19,6 +20,7 @@ import (
 
 func init() {
 	Register(&Scenario{
+		Pools: true,
 		Name:  "packet-sm",
 		Props: []string{"C20"},
 		Plan: func(prop, tier string) []Batch {
@@ -50,10 +52,10 @@ type wop struct {
 	fail bool
 }
 
-var wopName = []string{"WriteUint8", "WriteUint16", "WriteUint32", "WriteUint64", "WriteBytes", "WriteString", "WriteCString", "WriteFixedLenString"}
+var wopName = []string{"WriteUint8", "WriteUint16", "WriteUint32", "WriteUint64", "WriteBytes", "WriteString", "WriteCString", "WriteFixedLenString", "WriteFixedLenString(binary)"}
 
 func genWop(c *core.Chooser) wop {
-	o := wop{kind: c.Intn(8)}
+	o := wop{kind: c.Intn(9)}
 	switch o.kind {
 	case 0, 1, 2, 3:
 		o.u = c.Uint64()
@@ -66,6 +68,17 @@ func genWop(c *core.Chooser) wop {
 		o.b = c.Blob(c.Size(40, 0, 1), "any")
 	case 6:
 		o.b = c.Blob(c.Size(30, 0, 1), "nonul")
+	case 8:
+		o.n = 1 + c.Size(31, 9, 15)
+		o.b = c.Blob(o.n, "any") // exactly the slot width, any octets
+		switch c.Intn(4) {
+		case 1:
+			o.b[0] = 0
+		case 2:
+			o.b[o.n-1] = 0
+		case 3:
+			o.b[c.Intn(o.n)] = 0
+		}
 	case 7:
 		o.n = c.Size(40, 0, 1, 21)
 		o.b = c.Blob(c.Intn(o.n+1), "nonul")
@@ -107,7 +120,7 @@ func (m *wmodel) apply(o wop, idx int) {
 		m.b = append(m.b, o.b...)
 	case 6:
 		m.b = append(append(m.b, o.b...), 0)
-	case 7:
+	case 7, 8:
 		if len(o.b) > o.n {
 			m.failed, m.firstAt = true, idx
 			return
@@ -134,7 +147,7 @@ func applyW(w *packet.Writer, o wop) {
 		w.WriteString(string(o.b))
 	case 6:
 		w.WriteCString(string(o.b))
-	case 7:
+	case 7, 8:
 		w.WriteFixedLenString(string(o.b), o.n)
 	}
 }
@@ -146,6 +159,9 @@ func runPacketSM(r *core.Run) {
 		return
 	case "fail-pos":
 		packetHistory(r, int(r.Cfg.Index%16), 12)
+		if len(r.Findings) == 0 {
+			packetHistory(r, -2, 6) // a fresh writer right after the released one: no failure injected
+		}
 		return
 	}
 	if r.C.Prob(1, 3) {
@@ -153,6 +169,12 @@ func runPacketSM(r *core.Run) {
 		return
 	}
 	packetHistory(r, -1, 200)
+	// writers are taken from and released to pools: whatever an earlier writer went through (a
+	// recorded failure included) must not be visible in the next one
+	for k := r.C.Intn(3); k > 0 && len(r.Findings) == 0; k-- {
+		r.Probe("writer_after_released_writer")
+		packetHistory(r, -1, 12)
+	}
 }
 
 func packetHistory(r *core.Run, failPos, maxOps int) {
@@ -162,7 +184,7 @@ func packetHistory(r *core.Run, failPos, maxOps int) {
 	for i := range ops {
 		ops[i] = genWop(c)
 	}
-	if failPos < 0 && c.Prob(2, 3) && n > 0 {
+	if failPos == -1 && c.Prob(2, 3) && n > 0 {
 		failPos = c.Intn(n)
 	}
 	if failPos >= 0 && failPos < n {
@@ -182,6 +204,10 @@ func packetHistory(r *core.Run, failPos, maxOps int) {
 		return
 	}
 	defer func() { r.Call("packet.Writer.Release", func() { w.Release() }) }()
+	if w.Error() != nil || w.Written() != 0 || w.Len() != 0 {
+		r.Fail("C20", "new-writer-not-clean", "NewPacketWriter", "state", "a new writer starts with Error()=%v Written()=%d Len()=%d", w.Error(), w.Written(), w.Len())
+		return
+	}
 	var firstErr string
 	for i, o := range ops {
 		m.apply(o, i)
@@ -281,15 +307,27 @@ func packetHistory(r *core.Run, failPos, maxOps int) {
 				v := rd.ReadCString()
 				ok, got, site = v == string(o.b), hexN([]byte(v), 16), "Reader.ReadCString"
 			case 7:
-				if c.Bool() {
+				switch c.Intn(3) {
+				case 2:
+					// fixed-width binary: only the NUL padding on the right is removed
+					v := rd.ReadFixedBinaryN(o.n)
+					ok, got, site = v == strings.TrimRight(string(o.b), "\x00"), hexN([]byte(v), 16), "Reader.ReadFixedBinaryN"
+					if o.n <= 0 {
+						ok = v == ""
+					}
+				case 1:
 					v := rd.ReadCStringN(o.n)
 					ok, got, site = v == string(o.b), hexN([]byte(v), 16), "Reader.ReadCStringN"
-				} else {
+				default:
 					v := rd.ReadCStringNWithoutTrim(o.n)
 					slot := make([]byte, o.n)
 					copy(slot, o.b)
 					ok, got, site = v == string(slot), hexN([]byte(v), 16), "Reader.ReadCStringNWithoutTrim"
 				}
+			case 8:
+				// binary fixed-width field (any octets, NULs anywhere): written as a fixed-length string
+				v := rd.ReadFixedBinaryN(o.n)
+				ok, got, site = v == strings.TrimRight(string(o.b), "\x00"), hexN([]byte(v), 16), "Reader.ReadFixedBinaryN"
 			}
 		})
 		if p != nil {
@@ -346,7 +384,7 @@ func packetTrunc(r *core.Run, t int) {
 			o = ops[i]
 		} else {
 			o = genWop(c)
-			if o.kind == 7 && o.n == 0 {
+			if o.kind >= 7 && o.n == 0 {
 				o.n = 1
 			}
 		}
@@ -370,7 +408,7 @@ func packetTrunc(r *core.Run, t int) {
 			} else {
 				need = idx + 1
 			}
-		case 7:
+		case 7, 8:
 			need = o.n
 		}
 		expectFail := failed || pos+need > len(in)
@@ -413,7 +451,7 @@ func packetTrunc(r *core.Run, t int) {
 			case 6:
 				v := rd.ReadCString()
 				got, zero, site = append([]byte(v), 0), v == "", "Reader.ReadCString"
-			case 7:
+			case 7, 8:
 				v := rd.ReadCStringNWithoutTrim(o.n)
 				got, zero, site = []byte(v), v == "", "Reader.ReadCStringNWithoutTrim"
 			}
